@@ -59,8 +59,8 @@ def daySchedule (ctx : Ctx) (e : Expr) (d : Day) : M (List TimeRange) :=
   match scheduleAt ctx e d with
   | .error p => .error p
   | .ok s =>
-    let r := Schedule.iterFull s
-    if r.2 then .error "schedule.rs:IntoIter::pre_yield infinite loop detected" else .ok r.1
+    if Schedule.iterPanics s then .error "schedule.rs:IntoIter::pre_yield infinite loop detected"
+    else .ok (Schedule.iter s)
 
 def envOf (ctx : Ctx) (e : Expr) : Env := ⟨daySchedule ctx e, nextChangeHint ctx e, ctx.bound⟩
 
